@@ -56,15 +56,14 @@ def _serialize_check_stats(check_stats, dtype=None):
     """Serialize check statistics into json/yaml-compatible format."""
 
     def handle_stat_dtype(stat):
-        if pandas_engine.Engine.dtype(dtypes.DateTime).check(
-            dtype
-        ) and hasattr(stat, "strftime"):
+        # also for time zone aware and non-nanosecond datetime dtypes
+        if dtypes.is_datetime(dtype) and hasattr(stat, "strftime"):
             # try serializing stat as a string if it's datetime-like,
             # otherwise return original value. ISO 8601 keeps sub-seconds and
             # the utc offset, and is the same text as DATETIME_FORMAT for
             # whole seconds without a time zone.
             return pd.Timestamp(stat).isoformat(sep=" ")
-        elif pandas_engine.Engine.dtype(dtypes.Timedelta).check(dtype):
+        elif dtypes.is_timedelta(dtype):
             # try serializing stat into an int in nanoseconds if it's
             # timedelta-like, otherwise return original value
             return getattr(stat, "value", stat)
@@ -202,9 +201,9 @@ def _deserialize_check_stats(check, serialized_check_stats, dtype=None):
 
     def handle_stat_dtype(stat):
         try:
-            if pandas_engine.Engine.dtype(dtypes.DateTime).check(dtype):
+            if dtypes.is_datetime(dtype):
                 return pd.to_datetime(stat, format="ISO8601")
-            elif pandas_engine.Engine.dtype(dtypes.Timedelta).check(dtype):
+            elif dtypes.is_timedelta(dtype):
                 # serialize to int in nanoseconds
                 return pd.to_timedelta(stat, unit="ns")
         except (TypeError, ValueError):
